@@ -19,8 +19,6 @@ import (
 	"verifsim/models/keyoracle"
 )
 
-func mod64(v int64, n int) int64 { return int64(mod(v, n)) }
-
 func mod(v int64, n int) int {
 	if n <= 0 {
 		return 0
@@ -738,11 +736,7 @@ func (r *run) opUnlock(op core.Op) {
 	if right {
 		if err != nil {
 			if r.c5 != nil {
-				wasCtx := ""
-				if !was {
-					wasCtx = ":was=unlocked"
-				}
-				r.fail("unlock-failed:right-passphrase:"+errName(err)+wasCtx+r.c5.unlockContext(),
+				r.fail("unlock-failed:right-passphrase:"+errName(err)+r.c5.unlockContext(),
 					"Unlock with the current private passphrase failed (was %s): %v", r.stateName(), err)
 				if r.stop {
 					return
@@ -753,9 +747,6 @@ func (r *run) opUnlock(op core.Op) {
 			return
 		}
 		r.locked = false
-		if !was {
-			r.env.Count("probe.unlock-right-while-unlocked")
-		}
 		if r.c5 != nil && r.mgr.IsLocked() {
 			r.fail("unlock-still-locked", "IsLocked() is true after a successful Unlock")
 			return
@@ -885,7 +876,7 @@ func (r *run) opChpass(op core.Op) {
 		return
 	}
 	if r.c5 != nil {
-		r.c5.afterChpass(private, mod64(op.Arg(4), 3))
+		r.c5.afterChpass(private)
 	}
 }
 
